@@ -34,7 +34,6 @@ def KTask (U : Universe) (P : Problem) (s : S) : Task → Prop
   | .cons sid vs => Obtained s sid ∧ TaskLegit U P (.cons sid vs)
 
 structure KInv (U : Universe) (P : Problem) (s : S) : Prop where
-  sync : s.asyncMode = false
   cands : ∀ n ∈ s.issuedCands, Mentioned U P s n
   queue : ∀ t ∈ s.queue, KTask U P s t
 
@@ -64,7 +63,7 @@ theorem ktask_mono {s s' : S} (h : Mono s s') (t : Task) (hk : KTask U P s t) : 
 
 theorem kinv_of_mono {s s' : S} (h : KInv U P s) (hm : Mono s s') (h1 : s'.issuedCands = s.issuedCands) (h2 : s'.queue = s.queue)
     (h4 : s'.asyncMode = s.asyncMode) : KInv U P s' ∧ Mono s s' :=
-  ⟨⟨by rw [h4]; exact h.sync, by rw [h1]; exact fun n hn => mentioned_mono hm n (h.cands n hn), by rw [h2]; exact fun t ht => ktask_mono hm t (h.queue t ht)⟩, hm⟩
+  ⟨⟨by rw [h1]; exact fun n hn => mentioned_mono hm n (h.cands n hn), by rw [h2]; exact fun t ht => ktask_mono hm t (h.queue t ht)⟩, hm⟩
 
 theorem kinv_of_view {s s' : S} (h : KInv U P s) (h1 : s'.issuedCands = s.issuedCands) (h2 : s'.queue = s.queue)
     (h3 : s'.fetchedDeps = s.fetchedDeps) (h4 : s'.asyncMode = s.asyncMode) : KInv U P s' ∧ Mono s s' :=
@@ -73,7 +72,7 @@ theorem kinv_of_view {s s' : S} (h : KInv U P s) (h1 : s'.issuedCands = s.issued
 theorem kinv_set_queue {s s' : S} (h : KInv U P s) (q : List Task) (hq : ∀ t ∈ q, KTask U P s t) (h1 : s'.issuedCands = s.issuedCands)
     (h2 : s'.queue = q) (h3 : s'.fetchedDeps = s.fetchedDeps) (h4 : s'.asyncMode = s.asyncMode) : KInv U P s' ∧ Mono s s' := by
   have hm : Mono s s' := by intro x hx; rw [h3]; exact hx
-  exact ⟨⟨by rw [h4]; exact h.sync, by rw [h1]; exact fun n hn => mentioned_mono hm n (h.cands n hn), by rw [h2]; exact fun t ht => ktask_mono hm t (hq t ht)⟩, hm⟩
+  exact ⟨⟨by rw [h1]; exact fun n hn => mentioned_mono hm n (h.cands n hn), by rw [h2]; exact fun t ht => ktask_mono hm t (hq t ht)⟩, hm⟩
 
 /-! ### `KM`: the computation keeps the invariant and only extends the dependency cache -/
 
@@ -417,7 +416,7 @@ theorem kr_getCandidates (F : S → Prop) (hF : KStable F) (U : Universe) (n : N
     refine kr_bind (by kstab) (G := fun _ _ => True) ?_ (fun _ => ?_)
     · apply kr_modify
       intro s hi hF'
-      refine ⟨⟨hi.sync, ?_, hi.queue⟩, fun _ h => h⟩
+      refine ⟨⟨?_, hi.queue⟩, fun _ h => h⟩
       intro x hx
       rcases List.mem_cons.mp hx with rfl | hx
       · exact hn s hF'.1.1
@@ -645,15 +644,434 @@ theorem km_encodeSync (U : Universe) (P : Problem) (sv : List SoR) (fuel : Nat) 
 macro_rules | `(tactic| ks_lemma) => `(tactic| with_reducible exact km_encodeSync _ _ _ _)
 
 
-/-- `Encoder::encode` (the invariant says the provider is synchronous) -/
+/-! ### the encoder with an asynchronous provider -/
+
+theorem km_logCall (w : String) (g : GEv) : KM U P (logCall w g) := by unfold logCall; ks
+macro_rules | `(tactic| ks_lemma) => `(tactic| with_reducible exact km_logCall _ _)
+theorem km_startDeps (sv : Nat) : KM U P (startDeps sv) := by unfold startDeps; ks
+macro_rules | `(tactic| ks_lemma) => `(tactic| with_reducible exact km_startDeps _)
+theorem km_finishCands (U : Universe) (n : Nat) : KM U P (finishCands U n) := by unfold finishCands; ks
+macro_rules | `(tactic| ks_lemma) => `(tactic| with_reducible exact km_finishCands _ _)
+
+/-- the answer to `get_dependencies` has arrived: the dependency cache grows -/
+theorem kr_finishDeps (F : S → Prop) (sv : Nat) : Kr U P F (finishDeps sv) (fun _ s => sv ∈ s.fetchedDeps) := by
+  intro s hi _
+  unfold finishDeps
+  simp only [runM_modify]
+  exact ⟨kinv_mono' hi (fun x hx => List.mem_cons_of_mem _ hx) rfl rfl rfl, fun x hx => List.mem_cons_of_mem _ hx,
+    fun _ _ => List.mem_cons_self⟩
+
+theorem km_finishChild (sorted : Bool) (c : Child) (a : AS) : KM U P (finishChild sorted c a) := by
+  unfold finishChild
+  ks
+macro_rules | `(tactic| ks_lemma) => `(tactic| with_reducible exact km_finishChild _ _ _)
+
+theorem km_sortStage (U : Universe) (tid : Nat) (g : Bool) (c : Child) (a : AS) (e : Bool) :
+    KM U P (sortStage U tid g c a e) := by
+  unfold sortStage
+  ks
+macro_rules | `(tactic| ks_lemma) => `(tactic| with_reducible exact km_sortStage _ _ _ _ _ _)
+
+theorem km_filterStage (U : Universe) (tid : Nat) (g sorted : Bool) (c : Child) (a : AS) (e : Bool) :
+    KM U P (filterStage U tid g sorted c a e) := by
+  unfold filterStage
+  ks
+macro_rules | `(tactic| ks_lemma) => `(tactic| with_reducible exact km_filterStage _ _ _ _ _ _ _)
+
+/-- one poll of a `get_or_cache_candidates` await for a mentioned name -/
+theorem kr_pollCands (F : S → Prop) (hF : KStable F) (U : Universe) (tid n : Nat) (w : CandWait) (a : AS)
+    (hn : ∀ s, F s → Mentioned U P s n) : Kr U P F (pollCands U tid n w a) (fun _ _ => True) := by
+  unfold pollCands
+  apply kr_bind hF (kr_of_tm _ km_get)
+  intro s0
+  cases w with
+  | ready => dsimp only; kr_quiet
+  | notStarted =>
+    dsimp only
+    split
+    · kr_quiet
+    · refine kr_bind (by kstab) (kr_of_tm _ km_pollCancel) (fun _ => ?_)
+      split
+      · kr_quiet
+      · refine kr_bind (by kstab) (kr_of_tm _ (km_logCall _ _)) (fun _ => ?_)
+        refine kr_bind (by kstab) (G := fun _ _ => True) ?_ (fun _ => ?_)
+        · apply kr_modify
+          intro s hi hF'
+          refine ⟨⟨?_, hi.queue⟩, fun _ h => h⟩
+          intro x hx
+          rcases List.mem_cons.mp hx with rfl | hx
+          · exact hn s hF'.1.1.1
+          · exact hi.cands x hx
+        · kr_quiet
+  | owner => dsimp only; kr_quiet
+  | listener => dsimp only; kr_quiet
+
+/-- a postcondition about the returned value that holds of every normal result -/
+theorem kr_spec {α : Type} {F : S → Prop} {x : M α} {G : α → S → Prop} (Q : α → Prop) (h : Kr U P F x G)
+    (hspec : ∀ s s' v, runM x s = (.ok v, s') → Q v) : Kr U P F x (fun v s => G v s ∧ Q v) := by
+  intro s hi hF
+  obtain ⟨i, m, p⟩ := h s hi hF
+  refine ⟨i, m, fun a ha => ⟨p a ha, ?_⟩⟩
+  apply hspec s (runM x s).2 a
+  cases hr : runM x s with
+  | mk r s' => rw [hr] at ha; simp only at ha; rw [ha]
+
+/-- one poll of a child whose package name is mentioned -/
+theorem kr_pollChild (F : S → Prop) (hF : KStable F) (U : Universe) (tid : Nat) (sorted : Bool) (c : Child) (a : AS)
+    (hn : ∀ s, F s → Mentioned U P s (U.vsName c.vs)) : Kr U P F (pollChild U tid sorted c a) (fun _ _ => True) := by
+  unfold pollChild
+  split
+  · kr_quiet
+  · apply kr_bind hF (kr_of_tm _ km_get)
+    intro s0
+    dsimp only
+    split
+    · kr_quiet
+    · split
+      · kr_quiet
+      · split
+        · kr_quiet
+        · split
+          · kr_quiet
+          · split
+            · kr_quiet
+            · refine kr_bind (by kstab) (kr_pollCands _ (by kstab) U tid _ c.wait a (fun s h => hn s h.1)) (fun r => ?_)
+              kr_quiet
+
+theorem kr_pollChildren (F : S → Prop) (hF : KStable F) (U : Universe) (tid : Nat) (sorted : Bool) (cs : List Child) (a : AS)
+    (hn : ∀ s, F s → ∀ c ∈ cs, Mentioned U P s (U.vsName c.vs)) : Kr U P F (pollChildren U tid sorted cs a) (fun _ _ => True) := by
+  induction cs generalizing a with
+  | nil => unfold pollChildren; kr_quiet
+  | cons c cs ih =>
+    unfold pollChildren
+    refine kr_bind hF (kr_pollChild F hF U tid sorted c a (fun s h => hn s h c List.mem_cons_self)) (fun r => ?_)
+    refine kr_bind (by kstab) (kr_weaken (ih r.2 (fun s h x hx => hn s h x (List.mem_cons_of_mem _ hx))) (fun s h => h.1) (fun _ _ h => h)) (fun r2 => ?_)
+    kr_quiet
+
+/-- the version sets a future's children stand for -/
+def taskVsets (U : Universe) : Task → List Nat
+  | .req _ r => U.reqVersionSets r
+  | .cons _ vs => [vs]
+  | _ => []
+
+/-- a future is causal: its task is, and its children are the version sets of its task -/
+def KATask (U : Universe) (P : Problem) (s : S) (t : ATask) : Prop :=
+  KTask U P s t.task ∧ ((∃ sid r, t.task = .req sid r) ∨ (∃ sid vs, t.task = .cons sid vs) → t.children.map (·.vs) = taskVsets U t.task)
+
+def KALegit (U : Universe) (P : Problem) (s : S) (a : AS) : Prop := ∀ t ∈ a.tasks, KATask U P s t
+
+theorem kstable_katask (t : ATask) : KStable (fun s => KATask U P s t) := fun _ _ e h => ⟨ktask_mono e _ h.1, h.2⟩
+theorem kstable_kalegit (a : AS) : KStable (fun s => KALegit U P s a) := fun s s' e h t ht => kstable_katask t s s' e (h t ht)
+
+theorem mentioned_of_req {s : S} {sid : SoR} {r : Req} (h : KTask U P s (.req sid r)) (vs : Nat) (hvs : vs ∈ U.reqVersionSets r) :
+    Mentioned U P s (U.vsName vs) := by
+  obtain ⟨ho, reqs, cons, h1, h2⟩ := h
+  exact ⟨sid, ho, reqs, cons, h1, Or.inl ⟨r, h2, vs, hvs, rfl⟩⟩
+
+theorem mentioned_of_cons {s : S} {sid : SoR} {vs : Nat} (h : KTask U P s (.cons sid vs)) : Mentioned U P s (U.vsName vs) := by
+  obtain ⟨ho, reqs, cons, h1, h2⟩ := h
+  exact ⟨sid, ho, reqs, cons, h1, Or.inr ⟨vs, h2, rfl⟩⟩
+
+theorem pollTask_cons_vs (U : Universe) (P : Problem) (t : ATask) (sid : SoR) (vs : Nat) (a : AS) (s s' : S)
+    (t' : ATask) (a' : AS) (res : Option TaskResult) (ht : t.task = .cons sid vs)
+    (h : runM (pollTask U P t a) s = (.ok (t', a', res), s')) : t'.children.map (·.vs) = t.children.map (·.vs) := by
+  unfold pollTask at h
+  rw [ht] at h
+  simp only [runM_bind] at h
+  cases hq : runM (pollChildren U t.id false t.children a) s with
+  | mk r2 s2 =>
+    cases r2 with
+    | error e => simp only [hq] at h; exact absurd h (by simp)
+    | ok v2 =>
+      obtain ⟨cs2, a2⟩ := v2
+      have h2 := (pollChildren_started U t.id false t.children a s s2 cs2 a2 hq).1
+      simp only [hq] at h
+      by_cases hall : (cs2.all (·.done)) = true
+      · simp only [hall, if_true, runM_pure, Prod.mk.injEq, Except.ok.injEq] at h
+        obtain ⟨⟨rfl, rfl, rfl⟩, rfl⟩ := h
+        exact h2
+      · simp only [hall, Bool.false_eq_true, if_false, runM_pure, Prod.mk.injEq, Except.ok.injEq] at h
+        obtain ⟨⟨rfl, rfl, rfl⟩, rfl⟩ := h
+        exact h2
+
+/-- the dependencies a finished `deps` future hands over have been obtained -/
+def ResObtained (s : S) : TaskResult → Prop
+  | .deps sid _ => Obtained s sid
+  | _ => True
+
+theorem kstable_resObtained (res : Option TaskResult) : KStable (fun s => ∀ r, res = some r → ResObtained s r) := by
+  intro s s' e h r hr
+  have := h r hr
+  cases r with
+  | deps sid d => exact obtained_mono e sid this
+  | cands _ _ => trivial
+  | req _ _ _ => trivial
+  | cons _ _ _ => trivial
+
+macro "kstab2" : tactic => `(tactic| repeat (first | assumption | exact kstable_const _ | exact kstable_kalegit _ | exact kstable_resObtained _ | exact kstable_obtained _ | exact kstable_mentioned _ | exact kstable_ktask _ | exact kstable_mem _ | apply kstable_and))
+
+/-- one poll of a causal future: the invariant is kept; a `deps` result is for a solvable whose dependencies are now cached -/
+theorem kr_pollTask (F : S → Prop) (hF : KStable F) (U : Universe) (P : Problem) (t : ATask) (a : AS)
+    (ht : ∀ s, F s → KATask U P s t) :
+    Kr U P F (pollTask U P t a) (fun v s => ∀ r, v.2.2 = some r → ResObtained s r) := by
+  unfold pollTask
+  cases htask : t.task with
+  | deps sid =>
+    cases sid with
+    | none =>
+      dsimp only
+      apply kr_pure_ctx
+      intro s _ r hr
+      cases hr; trivial
+    | some sv =>
+      dsimp only
+      -- the state read by `get` decides whether the answer is already cached
+      intro s hi hFs
+      rw [runM_bind, runM_get]
+      dsimp only
+      cases hw : t.wait with
+      | notStarted =>
+        dsimp only
+        by_cases hc : s.fetchedDeps.contains sv = true
+        · simp only [hc, if_true, runM_pure]
+          exact ⟨hi, Mono.refl s, fun v hv r hr => by cases hv; cases hr; exact List.contains_iff_mem.mp hc⟩
+        · simp only [hc, Bool.false_eq_true, if_false]
+          refine (?_ : Kr U P F _ (fun (v : ATask × AS × Option TaskResult) s => ∀ r, v.2.2 = some r → ResObtained s r)) s hi hFs
+          refine kr_bind hF (kr_of_tm F (km_startDeps sv)) (fun _ => ?_)
+          apply kr_pure_ctx
+          intro _ _ r hr
+          cases hr
+      | owner =>
+        dsimp only
+        split
+        · refine (?_ : Kr U P F _ (fun (v : ATask × AS × Option TaskResult) s => ∀ r, v.2.2 = some r → ResObtained s r)) s hi hFs
+          refine kr_bind hF (kr_finishDeps F sv) (fun _ => ?_)
+          apply kr_pure_ctx
+          intro s' h r hr
+          cases hr
+          exact h.2
+        · simp only [runM_pure]
+          exact ⟨hi, Mono.refl s, fun v hv r hr => by cases hv; cases hr⟩
+      | listener =>
+        dsimp only
+        split
+        · refine (?_ : Kr U P F _ (fun (v : ATask × AS × Option TaskResult) s => ∀ r, v.2.2 = some r → ResObtained s r)) s hi hFs
+          refine kr_bind hF (kr_finishDeps F sv) (fun _ => ?_)
+          apply kr_pure_ctx
+          intro s' h r hr
+          cases hr
+          exact h.2
+        · simp only [runM_pure]
+          exact ⟨hi, Mono.refl s, fun v hv r hr => by cases hv; cases hr⟩
+      | ready =>
+        dsimp only
+        split
+        · refine (?_ : Kr U P F _ (fun (v : ATask × AS × Option TaskResult) s => ∀ r, v.2.2 = some r → ResObtained s r)) s hi hFs
+          refine kr_bind hF (kr_finishDeps F sv) (fun _ => ?_)
+          apply kr_pure_ctx
+          intro s' h r hr
+          cases hr
+          exact h.2
+        · simp only [runM_pure]
+          exact ⟨hi, Mono.refl s, fun v hv r hr => by cases hv; cases hr⟩
+  | pkg n =>
+    dsimp only
+    refine kr_bind hF (kr_pollCands F hF U t.id n t.wait a (fun s h => by have := (ht s h).1; rw [htask] at this; exact this)) (fun r => ?_)
+    split
+    · exact kr_pure_ctx _ (fun _ _ r hr => by cases hr; trivial)
+    · exact kr_pure_ctx _ (fun _ _ r hr => by cases hr)
+  | req sid r =>
+    dsimp only
+    refine kr_bind hF (kr_pollChildren F hF U t.id true t.children a ?_) (fun r => ?_)
+    · intro s h c hc
+      obtain ⟨hk, hch⟩ := ht s h
+      rw [htask] at hk
+      have hvs : c.vs ∈ U.reqVersionSets r := by
+        have := hch (Or.inl ⟨sid, r, htask⟩)
+        rw [htask] at this
+        have hm : c.vs ∈ t.children.map (·.vs) := List.mem_map.mpr ⟨c, hc, rfl⟩
+        rw [this] at hm; exact hm
+      exact mentioned_of_req hk c.vs hvs
+    · split
+      · exact kr_pure_ctx _ (fun _ _ r hr => by cases hr; trivial)
+      · exact kr_pure_ctx _ (fun _ _ r hr => by cases hr)
+  | cons sid vs =>
+    dsimp only
+    refine kr_bind hF (kr_pollChildren F hF U t.id false t.children a ?_) (fun r => ?_)
+    · intro s h c hc
+      obtain ⟨hk, hch⟩ := ht s h
+      rw [htask] at hk
+      have hvs : c.vs = vs := by
+        have := hch (Or.inr ⟨sid, vs, htask⟩)
+        rw [htask] at this
+        have hm : c.vs ∈ t.children.map (·.vs) := List.mem_map.mpr ⟨c, hc, rfl⟩
+        rw [this] at hm; simpa [taskVsets] using hm
+      rw [hvs]; exact mentioned_of_cons hk
+    · split
+      · exact kr_pure_ctx _ (fun _ _ r hr => by cases hr; trivial)
+      · exact kr_pure_ctx _ (fun _ _ r hr => by cases hr)
+
+/-- the callback of a finished causal future -/
+theorem kr_runCallback (F : S → Prop) (hF : KStable F) (U : Universe) (P : Problem) (t : Task) (r : TaskResult)
+    (hr : ResFor U P t r) (ho : ∀ s, F s → ResObtained s r) : Kr U P F (runCallback U P r) (fun _ _ => True) := by
+  cases t <;> cases r <;> simp only [ResFor] at hr
+  · obtain ⟨rfl, rfl⟩ := hr
+    exact kr_onDependencies F hF U P _ _ (fun s h => ho s h) rfl
+  · unfold runCallback; kr_quiet
+  · unfold runCallback; kr_quiet
+  · unfold runCallback; kr_quiet
+
+theorem kalegit_adoptOne (U : Universe) (s : S) (a : AS) (t : Task) (h : KALegit U P s a) (ht : KTask U P s t) :
+    KALegit U P s (adoptOne U a t) := by
+  intro x hx
+  unfold adoptOne at hx
+  simp only [List.mem_append, List.mem_singleton] at hx
+  rcases hx with hx | rfl
+  · exact h x hx
+  · refine ⟨ht, ?_⟩
+    intro _
+    cases t with
+    | deps sid => simp [taskVsets]
+    | pkg n => simp [taskVsets]
+    | req sid r => simp [taskVsets, List.map_map, Function.comp_def]
+    | cons sid vs => simp [taskVsets]
+
+theorem kalegit_foldl_adoptOne (U : Universe) (s : S) (q : List Task) (a : AS) (h : KALegit U P s a) (hq : ∀ t ∈ q, KTask U P s t) :
+    KALegit U P s (q.foldl (adoptOne U) a) := by
+  induction q generalizing a with
+  | nil => exact h
+  | cons t q ih =>
+    exact ih _ (kalegit_adoptOne U s a t h (hq t List.mem_cons_self)) (fun x hx => hq x (List.mem_cons_of_mem _ hx))
+
+theorem kr_adoptPushed (F : S → Prop) (U : Universe) (a : AS) (ha : ∀ s, F s → KALegit U P s a) :
+    Kr U P F (adoptPushed U a) (fun a1 s => KALegit U P s a1) := by
+  intro s hi hFs
+  unfold adoptPushed
+  simp only [runM_bind, runM_get, runM_set, runM_pure]
+  refine ⟨(kinv_set_queue (s' := { s with queue := [] }) hi [] (fun _ hx => by cases hx) rfl rfl rfl rfl).1, fun _ h => h, fun a1 h1 => ?_⟩
+  cases h1
+  exact kalegit_foldl_adoptOne U s s.queue a (ha s hFs) hi.queue
+
+theorem km_executorTurn (a : AS) : KM U P (executorTurn a) := by
+  unfold executorTurn
+  dsimp only
+  apply km_bind
+  · apply km_modify; intro _ h; exact kinv_of_view h rfl rfl rfl rfl
+  · intro _
+    apply km_get_bind
+    intro s
+    ks_at
+
+/-- one iteration of the asynchronous encoder loop keeps the invariant, and the futures it leaves are causal -/
+theorem kr_asyncStep (F : S → Prop) (hF : KStable F) (U : Universe) (P : Problem) (a : AS) (ha : ∀ s, F s → KALegit U P s a) :
+    Kr U P F (asyncStep U P a) (fun r s => ∀ a', r = some a' → KALegit U P s a') := by
+  unfold asyncStep
+  apply kr_bind hF (kr_adoptPushed F U a ha)
+  intro a1
+  apply kr_weaken (F := fun s => KALegit U P s a1) _ (fun s h => h.2) (fun _ _ h => h)
+  cases hrd : a1.ready with
+  | nil =>
+    dsimp only
+    split
+    · exact kr_pure_ctx _ (fun _ _ a' h => by cases h)
+    · apply kr_bind (kstable_kalegit a1) (kr_of_tm_spec _ (fun a2 : AS => a2.tasks = a1.tasks) (km_executorTurn a1)
+        (fun s s' v h => (frame_executorTurn a1 s s' v h).tasks))
+      intro a2
+      apply kr_pure_ctx
+      intro s h a' ha'
+      cases ha'
+      intro t ht; rw [h.2] at ht; exact h.1 t ht
+  | cons tid rest =>
+    dsimp only
+    cases hfd : a1.tasks.find? (fun t => t.id == tid) with
+    | none =>
+      dsimp only
+      apply kr_pure_ctx
+      intro s h a' ha'
+      cases ha'
+      exact h
+    | some t =>
+      dsimp only
+      obtain ⟨htm, htid⟩ := find?_id hfd
+      split
+      · apply kr_pure_ctx
+        intro s h a' ha'
+        cases ha'
+        exact h
+      · apply kr_bind (kstable_kalegit a1) (kr_spec
+          (fun v : ATask × AS × Option TaskResult => v.2.1.tasks = a1.tasks ∧ v.1.task = t.task ∧
+            (∀ r, v.2.2 = some r → ResFor U P t.task r) ∧
+            ((∃ sid r, t.task = .req sid r) ∨ (∃ sid vs, t.task = .cons sid vs) → v.1.children.map (·.vs) = t.children.map (·.vs)))
+          (kr_pollTask _ (kstable_kalegit a1) U P t { a1 with ready := rest } (fun s h => h t htm))
+          (fun s s' v h => ⟨(pollTask_spec U P t _ s s' v.1 v.2.1 v.2.2 h).1.tasks, (pollTask_dspec U P t _ s s' v.1 v.2.1 v.2.2 h).1,
+            pollTask_res U P t _ s s' v.1 v.2.1 v.2.2 h,
+            fun hk => by
+              rcases hk with ⟨sid, r, hq⟩ | ⟨sid, vs, hq⟩
+              · exact (pollTask_req_started U P t sid r _ s s' v.1 v.2.1 v.2.2 hq h).1
+              · exact pollTask_cons_vs U P t sid vs _ s s' v.1 v.2.1 v.2.2 hq h⟩))
+        intro v
+        obtain ⟨t', a3, res⟩ := v
+        dsimp only
+        apply kr_assume (p := a3.tasks = a1.tasks ∧ t'.task = t.task ∧ (∀ r, res = some r → ResFor U P t.task r) ∧
+            ((∃ sid r, t.task = .req sid r) ∨ (∃ sid vs, t.task = .cons sid vs) → t'.children.map (·.vs) = t.children.map (·.vs)))
+          (fun _ h => h.2.2)
+        intro ⟨h1, h2, h3, h4⟩
+        have hfin : ∀ s, KALegit U P s a1 → KALegit U P s { a3 with tasks := a3.tasks.map (fun x => if x.id == tid then t' else x) } := by
+          intro s hl x hx
+          simp only [List.mem_map] at hx
+          obtain ⟨y, hy, rfl⟩ := hx
+          rw [h1] at hy
+          split
+          · refine ⟨by rw [h2]; exact (hl t htm).1, fun hk => ?_⟩
+            rw [h2] at hk ⊢
+            rw [h4 hk]; exact (hl t htm).2 hk
+          · exact hl y hy
+        cases res with
+        | none =>
+          dsimp only
+          apply kr_pure_ctx
+          intro s h a' ha'
+          cases ha'
+          exact hfin s h.1
+        | some r =>
+          dsimp only
+          apply kr_bind (by kstab2) (G := fun _ _ => True)
+          · apply kr_runCallback _ (by kstab2) U P t.task r (h3 r rfl)
+            intro s h
+            exact h.2.1 r rfl
+          · intro _
+            apply kr_pure_ctx
+            intro s h a' ha'
+            cases ha'
+            exact hfin s h.1.1
+
+theorem km_encodeAsync_loop (U : Universe) (P : Problem) (n : Nat) (a : AS) :
+    Kr U P (fun s => KALegit U P s a) (encodeAsync.loop U P n a) (fun _ _ => True) := by
+  induction n generalizing a with
+  | zero => unfold encodeAsync.loop; exact kr_of_tm _ (km_throw _)
+  | succ n ih =>
+    unfold encodeAsync.loop
+    apply kr_bind (kstable_kalegit a) (kr_asyncStep _ (kstable_kalegit a) U P a (fun _ h => h))
+    intro r
+    cases r with
+    | none => dsimp only; kr_quiet
+    | some a' =>
+      dsimp only
+      exact kr_weaken (ih a') (fun s h => h.2 a' rfl) (fun _ _ h => h)
+
+theorem km_encodeAsync_loop0 (U : Universe) (P : Problem) (n : Nat) : KM U P (encodeAsync.loop U P n {}) :=
+  km_of_tr (kr_weaken (km_encodeAsync_loop U P n {}) (fun _ _ t ht => by cases ht) (fun _ _ h => h))
+macro_rules | `(tactic| ks_lemma) => `(tactic| with_reducible exact km_encodeAsync_loop0 _ _ _)
+
+theorem km_encodeAsync (U : Universe) (P : Problem) (sv : List SoR) (fuel : Nat) : KM U P (encodeAsync U P sv fuel) := by
+  unfold encodeAsync
+  ks
+macro_rules | `(tactic| ks_lemma) => `(tactic| with_reducible exact km_encodeAsync _ _ _ _)
+
+/-- `Encoder::encode` -/
 theorem km_encode (U : Universe) (P : Problem) (sv : List SoR) (fuel : Nat) : KM U P (encode U P sv fuel) := by
   unfold encode
-  apply km_get_bind
-  intro s
-  apply kmAt_of_imp
-  intro hi
-  rw [hi.sync]
-  exact (km_encodeSync U P sv fuel).at s
+  ks
 macro_rules | `(tactic| ks_lemma) => `(tactic| with_reducible exact km_encode _ _ _ _)
 
 /-! ### propagation, decisions, conflict analysis, the solver loop -/
@@ -767,14 +1185,14 @@ theorem km_runSat (U : Universe) (P : Problem) (root : SoR) (fuel : Nat) : KM U 
   ks
 macro_rules | `(tactic| ks_lemma) => `(tactic| with_reducible exact km_runSat _ _ _ _)
 
-theorem kinv_solve (U : Universe) (P : Problem) (fuel : Nat) (s : S) (hs : s.asyncMode = false) :
+theorem kinv_solve (U : Universe) (P : Problem) (fuel : Nat) (s : S) :
     KInv U P (runM (solve U P fuel) s).2 := by
   unfold solve
   rw [runM_bind, runM_modify]
   dsimp only
   refine (KM.at ?_ _ ?_).1
   · ks
-  · refine ⟨hs, ?_, ?_⟩
+  · refine ⟨?_, ?_⟩
     · intro n hn
       have hn' : n ∈ ([] : List Nat) := hn
       cases hn'
@@ -783,14 +1201,14 @@ theorem kinv_solve (U : Universe) (P : Problem) (fuel : Nat) (s : S) (hs : s.asy
       cases ht'
 
 /-- **Candidates are requested causally** (every universe, problem, fuel and solver state carried over from earlier solves
-    — cache, hints, cancellation plan —, synchronous provider; whatever the outcome): after a solve, every `get_candidates`
+    — cache, hints, cancellation plan, completion order of an asynchronous provider —; whatever the outcome): after a solve, every `get_candidates`
     request issued during it was for a package name mentioned by dependency information the solver holds — a requirement
     or constrains entry of the root, or of a solvable whose dependencies are in the cache. The invariant holds in every
     intermediate state as well (it is maintained by every function of the model), so the dependencies had been obtained
     when the request was issued. -/
-theorem solveRun_kinv (U : Universe) (P : Problem) (fuel : Nat) (s : S) (hs : s.asyncMode = false) :
+theorem solveRun_kinv (U : Universe) (P : Problem) (fuel : Nat) (s : S) :
     KInv U P (solveRun U P fuel s).2 := by
-  have hm := kinv_solve U P fuel s hs
+  have hm := kinv_solve U P fuel s
   have hrun : (solve U P fuel).run.run s = runM (solve U P fuel) s := rfl
   unfold solveRun
   rw [hrun]
